@@ -17,9 +17,9 @@ import c07_keys
 
 PID = "C07"
 THEOREMS = ["hab_layout_roundtrip", "ivt_pointers_resolve", "signed_blocks_cover_except_known", "signed_blocks_cover_refuted",
-            "cms_obligations_ranges", "csf_offsets_resolve", "ccm_restores_app", "xmcd_roundtrip_except_known",
+            "cms_obligations_ranges", "csf_offsets_resolve", "ccm_restores_app", "dcd_roundtrip", "xmcd_roundtrip_except_known",
             "xmcd_roundtrip_refuted"]
-WORKDIR = os.path.join(vlib.WORK, "C07")
+WORKDIR = os.path.join(vlib.WORK, "C07", "scratch")     # .work/C07/proposed_fix_*.diff are kept
 RUN = os.path.join(WORKDIR, "run")
 ENGINES = {"ANY": 0, "CAAM": 0x1D, "DCP": 0x1B, "SW": 0xFF, "SNVS": 0x1E, "OCOTP": 0x21}
 ALGS = {"ANY": 0, "SHA256": 0x17, "SHA1": 0x11, "SHA512": 0x1B}
@@ -369,6 +369,25 @@ def gen_cases(tier, rng, pki, db):
     c = base_case(rng, "plain", geom=(0x400, 0x1000), why="DCD and XMCD together")
     c["dcd"], c["xmcd"] = mk_dcd(rng, "small"), enc_xmcd(0, 0, 0, b"\x11\x22\x33\x44")
     add(c)
+    # 3c. DCD command codec through plain images: regular, quirky and malformed DCD files
+    odd = [enc_dcd([("c", 4, 1, 0x400D8150, 0x1, 0)]),                                   # poll count 0
+           enc_dcd([("c", 4, 1, 0x400D8150, 0x1, 0), ("n",)]),
+           tlv(0xD2, 0x41, tlv(0xCC, 0x84, struct.pack(">LL", 0x400FC068, 0x55))),      # reserved parameter bits set
+           tlv(0xD2, 0x41, tlv(0xCC, 0x03, struct.pack(">LL", 0x400FC068, 0x55))),      # 3-byte write width
+           tlv(0xD2, 0x41, tlv(0xC0, 0x00, b"\0\0\0\0")),                              # NOP with a body
+           tlv(0xD2, 0x41, tlv(0xC5, 0x00, b"")),                                        # unknown command tag
+           tlv(0xD2, 0x41, tlv(0xB4, 0x1D, struct.pack(">L", 5))),                       # INIT is not a DCD command
+           tlv(0xD2, 0x41, tlv(0xB2, 0x77, struct.pack(">L", 1))),                       # unlock, unknown engine
+           enc_dcd([("u", 0x21, 13, 0x1122334455667788), ("u", 0x1D, 7, None)]),
+           enc_dcd([("w", 4, 0, [(1, 2)])])[:-3],                                        # truncated
+           tlv(0xD2, 0x41, b""), tlv(0xD4, 0x41, b""),                                   # empty DCD; wrong segment tag
+           enc_dcd([("w", 4, 0, [(1, 2)])], version=0xC0)]                               # version byte that looks like an XMCD tag
+    for d in odd + [mk_dcd(rng, rng.choice(["small", "mixed", "mixed", "medium"])) for _ in range(60 if thorough else 10)]:
+        c = base_case(rng, "plain", geom=(0x1000, 0x2000), size=32, why="DCD command codec (plain images)")
+        c["dcd"] = d
+        # quirky / malformed files: only the outcome class and the model are compared, the content oracles need a valid DCD
+        c["dcd_canonical"] = not any(d is o for o in odd)
+        add(c)
     # 4. authenticated: key sets x source index x table size x command sets x versions / engines
     for ks in pki.sets:
         chains = len(pki.sets[ks]["csf"])
@@ -407,6 +426,23 @@ def gen_cases(tier, rng, pki, db):
                 vi, ti = rng.choice([0, 2, 3]), rng.choice([0, 1, 2, 3, 4, 5])
                 c["secs"] = [(27, vi, ti) if s[0] == 27 else ((28, ti, *rng.choice([("ANY", 0), ("CAAM", 0), ("DCP", 0)])) if s[0] == 28 else s) for s in c["secs"]]
                 add(c)
+    # 5b. random mix over all dimensions
+    for _ in range(900 if thorough else 24):
+        mode = rng.choice(["plain", "auth", "auth", "fast", "enc", "enc"])
+        c = base_case(rng, mode, geom=rng.choice([(0x400, 0x1000), (0x1000, 0x2000), (0, 0x400), (0x400, 0x800), (0, 0x2000)]),
+                      size=rng.choice([8, 12, 16, 33, 64, 200, 511, 1024, 3000, 4096, 6000]), why="random mix")
+        set_keys(c, pki, rng)
+        r = rng.random()
+        if r < 0.35:
+            c["dcd"] = mk_dcd(rng, rng.choice(["small", "mixed", "medium"]))
+        elif r < 0.55:
+            c["xmcd"] = enc_xmcd(rng.randrange(2), 0, rng.randrange(2), bytes(rng.getrandbits(8) for _ in range(rng.choice([4, 8, 60, 200]))))
+        if mode == "enc":
+            c["dek_bits"] = rng.choice([128, 192, 256])
+            c["mac_len"] = rng.choice([4, 6, 8, 10, 12, 14, 16])
+            c["dek"] = bytes(rng.getrandbits(8) for _ in range(c["dek_bits"] // 8)) if rng.random() < 0.7 else None
+            c["nonce"] = bytes(rng.getrandbits(8) for _ in range(rng.choice([13, 12, 11]))) if rng.random() < 0.5 else None
+        add(c)
     # 6. history: update_csf() called a second time on the same object, then export
     for mode in ("auth", "enc", "plain"):
         c = base_case(rng, mode, why="history: second update_csf")
@@ -657,7 +693,7 @@ def oracle_image(c, image, pki, dek, impl_fuses):
     if c["dcd"] is not None:
         if dcd_p - self_p != 64:
             yield P("layout:dcd-pointer", f"DCD pointer {dcd_p:#x}")
-        elif image[64:64 + len(c["dcd"])] != c["dcd"]:
+        elif image[64:64 + len(c["dcd"])] != c["dcd"] and c.get("dcd_canonical", True):
             yield P("layout:dcd-content", f"DCD bytes at IVT+0x40 differ from the given DCD ({len(c['dcd'])} bytes, application at {app_off:#x})")
     elif dcd_p != 0:
         yield P("layout:dcd-pointer", f"DCD pointer {dcd_p:#x} without DCD")
@@ -830,6 +866,17 @@ def oracle_image(c, image, pki, dek, impl_fuses):
             yield P("layout:app", "application bytes differ")
 
 
+def known_class(c):
+    """Input classes of the known findings F1, F2, F4, F5 (the model reproduces the defective behaviour there)."""
+    app_off = c["ils"] - c["ivt_off"]
+    return c["xmcd"] is not None or (c["dcd"] is not None and 64 + len(c["dcd"]) > app_off)
+
+
+def overlap_class(c):
+    app_off = c["ils"] - c["ivt_off"]
+    return c["dcd"] is not None and (c["xmcd"] is not None or 64 + len(c["dcd"]) > app_off)
+
+
 def oracle_parse(c, image, pr):
     """parse(export) must give back the same contents. pr = implementation's parse observables (or error tuple)."""
     P = lambda s, m: (s, m)
@@ -856,9 +903,9 @@ def oracle_parse(c, image, pr):
         yield P("parse:options", f"parsed flags/ivt offset/start {p['flags']:#x}/{p['ivt_offset']:#x}/{p['start']:#x}")
     dcd = None if p["dcd"] is None else bytes.fromhex(p["dcd"])
     xm = None if p["xmcd"] is None else bytes.fromhex(p["xmcd"])
-    if dcd != c["dcd"]:
+    if dcd != c["dcd"] and c.get("dcd_canonical", True):
         yield P("parse:dcd", "parsed DCD differs from the given DCD")
-    if xm != c["xmcd"]:
+    if xm != c["xmcd"] and c.get("dcd_canonical", True):
         sig = "parse:xmcd-instance-lost" if (c["xmcd"] and c["xmcd"][2] & 0xF) else "parse:xmcd"
         yield P(sig, f"parsed XMCD {None if xm is None else xm.hex()[:24]} differs from the given XMCD")
     app = bytes.fromhex(p["app"])
@@ -889,7 +936,7 @@ def run(tier):
 
 def _run(rep, rng, tier):
     model_ok, mlog = vlib.coq_make(["Model/HabModel.vo"])
-    vlib.check_theorems(rep, PID, THEOREMS, ["Proofs/HabProofs.vo"])
+    vlib.check_theorems(rep, PID, THEOREMS, ["Proofs/HabProofs.vo", "Proofs/HabDcdProofs.vo"])
     if tier == "thorough":
         vlib.coqchk(rep, PID, THEOREMS)
     vlib.audit(rep)
@@ -957,17 +1004,28 @@ def _run(rep, rng, tier):
                             hits.append((f"history:second-update_csf-{c['mode']}",
                                          "after a second update_csf() the exported image differs and no longer satisfies the property: "
                                          + (sub[0][1] if sub else "image changed")))
-            for sig, msg in hits:
-                rep.failing(sig, f"[{c['why']}] {msg}", {"kind": "impl-oracle", "case": rec, "oracle": sig})
-            if not hits:
-                nontrivial[c["id"]] = True
+            verdicts = [rep.failing(sig, f"[{c['why']}] {msg}", {"kind": "impl-oracle", "case": rec, "oracle": sig}) for sig, msg in hits]
+            class_sigs = ("sig:xmcd-not-covered", "layout:xmcd-instance-lost", "parse:xmcd-instance-lost", "layout:dcd-overlaps-app",
+                          "layout:dcd-xmcd-collide")
+            # the implementation's output shows none of the class defects (and nothing unknown)
+            nontrivial[c["id"]] = "violation" not in verdicts and not any(sig in class_sigs for sig, _ in hits)
         else:
             stats["rejected"] += 1
         c["dek_used"], c["sigs"] = dek, (sig_data, sig_csf)
         exprs.append(model_expr(1, model_args(c, pki, sig_data, sig_csf, dek)))
         expr_owner.append((c["id"], 1))
+    # SRK fuses: model (SHA-256 in Coq) vs SrkTable.export_fuses of the parsed image, per distinct table
+    fuse_of = {}
+    for c in cases:
+        pr = impl[c["id"]].get("parse", ["e"])
+        if c["flags"] & 8 and pr[0] == "ok" and pr[1]["csf"] and pr[1]["csf"]["fuses"]:
+            fuse_of.setdefault(c["table"], pr[1]["csf"]["fuses"])
+    for t in fuse_of:
+        exprs.append(model_expr(4, [VB(t)]))
+        expr_owner.append((t, 4))
     # correspondence
     ndis = 0
+    repaired = set()
     vlib.log(f"  oracles done at {time.time() - rep.t0:.0f} s; openssl cms calls {_cms_n[0]}")
     compared = {"build": 0, "parse": 0, "error-class": 0}
     if model_ok:
@@ -977,6 +1035,13 @@ def _run(rep, rng, tier):
             vlib.log(f"  model: {len(exprs)} evaluations in {time.time() - t_model:.0f} s")
             pairs = []
             for (cid, fn), mv in zip(expr_owner, mres):
+                if fn == 4:
+                    compared["fuses"] = compared.get("fuses", 0) + 1
+                    if mv[0] != "b" or mv[1].hex() != fuse_of[cid]:
+                        ndis += 1
+                        vlib.log(f"  disagreement SRK fuses: impl {fuse_of[cid]} model {mv}")
+                        rep.broken.append("correspondence:fuses") if "correspondence:fuses" not in rep.broken else None
+                    continue
                 if mv[0] == "l":       # [built; parse(export)]
                     pairs += [(cid, 1, mv[1][0]), (cid, 2, mv[1][1])]
                 else:
@@ -1027,6 +1092,11 @@ def _run(rep, rng, tier):
                         ic = p["csf"]["cmds"] if p["csf"] else None
                         if mc != ic:
                             dis = f"parse: CSF commands: impl {str(ic)[:120]} model {str(mc)[:120]}"
+                if dis and known_class(c) and (nontrivial.get(cid) or (r["build"][0] == "e" and r["build"][1] == 1 and overlap_class(c))):
+                    # known finding class, and the implementation's output satisfies every oracle: the defect was repaired
+                    # upstream; the (defect-faithful) model is expected to differ -- not a violation
+                    repaired.add(c["why"])
+                    dis = None
                 if dis:
                     ndis += 1
                     if ndis <= 8:
@@ -1034,6 +1104,8 @@ def _run(rep, rng, tier):
                     name = f"correspondence:{'build' if fn == 1 else 'parse'}"
                     if name not in rep.broken:
                         rep.broken.append(name)
+            if repaired:
+                vlib.log(f"  note: known-finding classes now satisfy the property on the implementation (repaired upstream?): {sorted(repaired)}")
             rep.obligation("correspondence:model = implementation (image bytes, block lists, signed bytes, parse observables)",
                            ndis == 0, f"{ndis} disagreements" if ndis else "")
         except Exception as ex:  # noqa
@@ -1061,7 +1133,7 @@ def _run(rep, rng, tier):
                       "openssl 3.0 CLI `cms -verify` and python-cryptography (AESCCM, RSA/ECDSA verify) as independent oracles",
                       "CMS / X.509 DER, RSA / ECDSA are outside Coq: signatures are obligations (inputs) of the model",
                       "AES block cipher: ccm_restores_app is parametric in the block cipher (length-preserving)"],
-        checker_cmd="coqc -R . V Props/C07/*.v (after make Proofs/HabProofs.vo)",
+        checker_cmd="coqc -R . V Props/C07/*.v (after make Proofs/HabProofs.vo Proofs/HabDcdProofs.vo)",
         assumptions=["application images are raw .bin files (ELF/SREC/HEX loading is C16)",
                      "SRK tables are canonical (as produced from certificates); their re-encoding by SrkTable.parse/export is not modelled",
                      "the re-sign loop of CsfHabSegment.update_signature is not modelled: the model takes the final CSF signature "
